@@ -36,6 +36,7 @@ CONFIGS = {
     "odd-asan": C(ODD),
     "host-clang-asan": C(HOST, cc="clang-14", opt="-O2"),            # second compiler: different UBSan checks, different code generation
     "small-O3-plain": C(SMALL, san="none", opt="-O3"),               # aggressive optimisation exploits UB the sanitizers may not flag
+    "small-msan": C(SMALL, cc="clang-14", san="msan", opt="-O1"),     # uninitialised scalars / heap reads that ASan, UBSan and a zero-folding optimiser hide
     "small-plain": C(SMALL, san="none", opt="-O2"),
     "small-ts-plain-vg": C(SMALL, caches=0, san="none", opt="-O1", vg=1),
     "host-nosse-plain": C(HOST, sse2=0, caches=0, san="none", opt="-O2"),
@@ -69,6 +70,8 @@ def san_flags(cfg):
         return ["-fsanitize=address,undefined", "-fno-sanitize-recover=all", "-fno-omit-frame-pointer"]
     if s == "tsan":
         return ["-fsanitize=thread", "-fno-omit-frame-pointer"]
+    if s == "msan":
+        return ["-fsanitize=memory", "-fsanitize-memory-track-origins=2", "-fno-omit-frame-pointer", "-fno-sanitize-recover=all"]
     return []
 
 # maintenance (coverage.py): VERIF_COV=1 compiles the library objects of the non-TSan builds with gcov instrumentation
@@ -110,7 +113,7 @@ def build(name, verbose=False):
         for f in lib_sources() + harness_sources():
             h.update(f.encode())
             h.update(open(f, "rb").read())
-        h.update(b"v7")
+        h.update(b"v7" if cfg["san"] != "msan" else b"v8")
         tag = "%s%s-%s" % (name, "_cov" if cov else "", h.hexdigest()[:14])
         d = os.path.join(BUILD, tag)
         exe = os.path.join(d, "mon")
@@ -165,7 +168,8 @@ def build(name, verbose=False):
                 hflags.append("-DHAVE_VALGRIND")
             if b in ("ref.c", "gen.c"):
                 hflags = ["-O3" if x == cfg["opt"] else x for x in hflags]
-                jobs.append(["gcc" if cc == "gcc" else cc] + hflags + ["-c", f, "-o", o])
+                # the model and the generators run uninstrumented for speed - except under MSan, which must see every store
+                jobs.append(["gcc" if cc == "gcc" else cc] + hflags + (sflags if cfg["san"] == "msan" else []) + ["-c", f, "-o", o])
             else:
                 jobs.append([cc] + hflags + sflags + ["-c", f, "-o", o])
         errs = []
@@ -247,6 +251,10 @@ def classify_death(rc, err):
         if kind == "SEGV":
             return "crash:SIGSEGV" + ("@" + fn if fn else "")
         return "asan:%s%s" % (kind, "@" + fn if fn else "")
+    m = re.search(r"WARNING: MemorySanitizer: ([A-Za-z0-9_-]+)", err)
+    if m:
+        fn = first_lib_frame(err)
+        return "msan:%s%s" % (m.group(1), "@" + fn if fn else "")
     m = re.search(r"([A-Za-z0-9_./-]+):\d+:\d+: runtime error: (.*)", err)
     if m:
         msg = m.group(2)
@@ -394,7 +402,7 @@ def run_range(exe, margs, lo, hi, env, res, lock, timeout, label, prefix=(), req
         if open_ev is None:
             # died outside a case (generator / cleanup): harness failure unless a sanitizer report names the library
             kind = classify_death(rc, err)
-            if (kind.startswith("asan:") or kind.startswith("ubsan:") or kind.startswith("crash:SIGSEGV@")) and first_lib_frame(err):
+            if (kind.startswith("asan:") or kind.startswith("ubsan:") or kind.startswith("msan:") or kind.startswith("crash:SIGSEGV@")) and first_lib_frame(err):
                 # e.g. the load-time constructor m4ri_init, m4ri_fini, or cache clean-up between cases
                 ev = Event(cur, "outside-case|-|-", "library code running between cases (constructor / destructor / cache clean-up)")
                 ev.fails.append(("outside-case|-|-|" + kind, "worker died outside a case: %s :: %s" % (kind, err.strip()[-1200:].replace("\n", " / "))))
@@ -424,6 +432,12 @@ def run_range(exe, margs, lo, hi, env, res, lock, timeout, label, prefix=(), req
                 return
         else:
             kind = classify_death(rc, err)
+            if kind.split(":")[0] in ("asan", "msan") and "@" not in kind and not first_lib_frame(err):
+                # a sanitizer report in which no frame (access, allocation or origin stack) belongs to the library: the harness's own defect
+                with lock:
+                    res.harness_failures.append("%s: sanitizer report without any library frame in case %d: %s\n%s" % (label, open_ev.idx, kind, err[-1500:]))
+                cur = open_ev.idx + 1
+                continue
             open_ev.fails.append((open_ev.keyprefix + "|" + kind, "worker died: %s :: %s" % (kind, err.strip()[-1200:].replace("\n", " / "))))
             open_ev.done = True
             with lock:
